@@ -2,7 +2,7 @@
 """C04 -- NFC-DEP delivers each payload exactly once, intact, or reports failure (structural clauses)."""
 import ast
 
-from ..model import norm, head, walk_no_nested, AnalysisError, FuncInfo, enclosing_stmt, ancestors
+from ..model import norm, head, walk_no_nested, AnalysisError, FuncInfo, enclosing_stmt, ancestors, live
 from ..cfg import cfg_of
 from ..resolve import Resolver, Ctx
 from ..escape import Escape, fmt_chain, items_sorted
@@ -167,7 +167,7 @@ def rule_pni(report, prog):
     tr = [t for t in walk_no_nested(h.node) if isinstance(t, ast.Try)]
     okk = False
     for t in tr:
-        hm = {norm(x.type): [norm(s) for s in x.body] for x in t.handlers if x.type is not None}
+        hm = {norm(x.type): [norm(s) for s in live(x.body)] for x in t.handlers if x.type is not None}
         if any('request_attention(self, 2, rwt, deadline)' in s for s in hm.get('nfc.clf.TimeoutError', [])) and \
                 any('request_retransmission(self, 2, rwt, deadline)' in s for s in hm.get('nfc.clf.TransmissionError', [])):
             okk = True
@@ -275,10 +275,10 @@ def rule_loops(report, prog):
                         kind = 'deadline in the loop condition'
                     elif test == 'send_data' and 'del send_data[0:self.miu]' in ' ; '.join(norm(s) for s in walk_no_nested(lp) if isinstance(s, ast.stmt)):
                         kind = 'payload consumed on every cycle'
-                    elif test == 'True' and isinstance(lp.body[0], ast.Assign) and 'deadline - time.time()' in norm(lp.body[0]) \
-                            and len(lp.body) > 1 and isinstance(lp.body[1], ast.If) and any(isinstance(x, ast.Raise) for x in lp.body[1].body):
+                    elif test == 'True' and isinstance(live(lp.body)[0], ast.Assign) and 'deadline - time.time()' in norm(live(lp.body)[0]) \
+                            and len(live(lp.body)) > 1 and isinstance(live(lp.body)[1], ast.If) and any(isinstance(x, ast.Raise) for x in live(lp.body)[1].body):
                         kind = 'deadline test raises TimeoutError at the top of every cycle'
-                    elif test == 'True' and 'deadline' in norm(lp.body[0]) and 'self.clf.exchange(frame, timeout=timeout)' in body:
+                    elif test == 'True' and 'deadline' in norm(live(lp.body)[0]) and 'self.clf.exchange(frame, timeout=timeout)' in body:
                         kind = 'every cycle is one exchange bounded by the deadline (timeout 0 after it)'
                     elif 'MoreInformation' in test and ('send_dep_req_recv_dep_res' in body or 'send_dep_res_recv_dep_req' in body):
                         kind = 'one new frame per cycle (peer chaining), each exchange bounded by timeout/deadline'
@@ -292,7 +292,7 @@ def rule_loops(report, prog):
     f = prog.func(DEP + '.Initiator.send_dep_req_recv_dep_res')
     for name in ('request_attention', 'request_retransmission'):
         g = f.closures[name]
-        last = g.node.body[-1]
+        last = live(g.node.body)[-1]
         report.check(isinstance(last, ast.Raise) and 'ProtocolError' in norm(last), 'C04-R5',
                      key(g.qname, 'exhausted retries end in ProtocolError'), g.loc(), '%s does not give up with ProtocolError' % name)
     # timeout extension bounded
